@@ -377,6 +377,9 @@ class Evaluator:
         if isinstance(st, ast.For):
             return self.exec_for(st, state, func)
         if isinstance(st, ast.While):
+            peel = self._peel_loop(st, state, func)
+            if peel is not None:
+                return peel
             s2 = state.fork()
             self._havoc_assigned(st.body, s2, "while", line)
             return [(s2, "fall", None, line)]
@@ -413,6 +416,28 @@ class Evaluator:
             return [(state, "fall", None, line)]
         self.unknowns.append((func.qname, line, type(st).__name__))
         return [(state, "fall", None, line)]
+
+    def _peel_loop(self, st: ast.While, state: State, func: Func):
+        """`while isinstance(x, C): x = x.attr`  ->  x = peel(x0, C, attr), and afterwards not isinstance(x, C)."""
+        t = st.test
+        if not (isinstance(t, ast.Call) and isinstance(t.func, ast.Name) and t.func.id == "isinstance" and len(t.args) == 2 and isinstance(t.args[0], ast.Name)):
+            return None
+        name = t.args[0].id
+        if len(st.body) != 1 or st.orelse or name not in state.env:
+            return None
+        b = st.body[0]
+        if not (isinstance(b, ast.Assign) and len(b.targets) == 1 and isinstance(b.targets[0], ast.Name) and b.targets[0].id == name
+                and isinstance(b.value, ast.Attribute) and isinstance(b.value.value, ast.Name) and b.value.value.id == name):
+            return None
+        spec = self.eval1(t.args[1], state, func)
+        names = self._class_names(spec)
+        if names is None:
+            return None
+        s2 = state.fork()
+        peeled = ("peel", s2.env[name], tuple(sorted(names)), b.value.attr)
+        s2.env[name] = peeled
+        s2.conds = add_cond(s2.conds, ("not", ("isinstance", peeled, tuple(sorted(names)))))
+        return [(s2, "fall", None, st.lineno)]
 
     _localdefs: dict[int, tuple[ast.FunctionDef, Func]] = {}
 
